@@ -1,10 +1,10 @@
 ---------------------------- MODULE MC_ScanRun ----------------------------
 EXTENDS Integers, FiniteSets, Sequences, TLC
 CONSTANTS Variant, AttachAtomic
-VARIABLES c, phase, sentN, now, openT, lastSend, queue, out, hist, closeT
+VARIABLES c, phase, sentN, now, openT, lastSend, queue, out, hist, closeT, cancelled
 CK == <<{"a", "b"}, {"c"}>>
 Fr == {[k |-> "a", s |-> TRUE], [k |-> "c", s |-> TRUE], [k |-> "b", s |-> FALSE]}
 AccM(f, ch) == f.s /\ f.k \in CK[ch]
 RecM(f, ch) == f.k
-INSTANCE ScanRun WITH ChunkKeys <- CK, Frames <- Fr, Acc <- AccM, Rec <- RecM, Delay <- 3, Lat <- 1, MaxT <- 9
+INSTANCE ScanRun WITH ChunkKeys <- CK, Frames <- Fr, Acc <- AccM, Rec <- RecM, Delay <- 3, Lat <- 1, MaxT <- 9, InFlight <- 1
 =============================================================================
